@@ -183,6 +183,26 @@ def check_configured(sh, doc, text, rng, via):
         if err is not None:
             sh.count('obs.source_rejected')
             return
+    elif via == 'parser-path':
+        import os
+        import tempfile
+        from pathlib import Path
+        from pydbml import PyDBML
+        fd, pth = tempfile.mkstemp(suffix='.dbml', dir=os.environ.get('PV_SCRATCH') or None)
+        try:
+            with os.fdopen(fd, 'w', encoding='utf8') as f:
+                f.write(text)
+            try:
+                if rng.random() < 0.5:
+                    db = PyDBML(Path(pth), allow_properties=doc.allow_properties, sql_renderer=RecSQL, dbml_renderer=RecDBML)
+                else:
+                    with open(pth, encoding='utf8') as fh:
+                        db = PyDBML(fh, allow_properties=doc.allow_properties, sql_renderer=RecSQL, dbml_renderer=RecDBML)
+            except Exception:
+                sh.count('obs.source_rejected')
+                return
+        finally:
+            os.unlink(pth)
     else:
         db = apibuild.build(doc, sql_renderer=RecSQL, dbml_renderer=RecDBML)
     case = {'kind': 'configured', 'via': via, 'text': text, 'case_seed': getattr(sh, 'case_seed', None)}
@@ -215,7 +235,7 @@ def check_configured(sh, doc, text, rng, via):
     # partial renderers
     plog = []
     PartS, PartD, hs, hd = partial_classes(rng, plog)
-    if via == 'parser':
+    if via in ('parser', 'parser-path'):
         db2, err = parse(text, allow_properties=doc.allow_properties, sql_renderer=PartS, dbml_renderer=PartD)
     else:
         db2 = apibuild.build(doc, sql_renderer=PartS, dbml_renderer=PartD)
@@ -296,9 +316,22 @@ def one_case(sh, case_seed, tracer):
             db = apibuild.build(doc)
         sh.case([text, origin, 'default'], nontrivial=len(feats) >= 2, sample={'origin': origin, 'config': 'default', 'text': text[:500]})
         check_default(sh, db, doc, rng, tracer, origin)
-    for via in ('parser', 'constructor'):
+    for via in ('parser', 'constructor', 'parser-path'):
         sh.case([text, via, 'configured'], nontrivial=len(feats) >= 2)
         check_configured(sh, doc, text, rng, via)
+    # after a table was deleted (references are not cascaded) element and database texts must still agree
+    if len(doc.tables) > 1:
+        dbd = apibuild.build(doc)
+        dbd.delete(rng.choice(dbd.tables))
+        sh.case([text, 'afterdelete'], nontrivial=True)
+        sh.count('obs.shape.afterdelete')
+        try:
+            dbd.sql, dbd.dbml
+            renders = True
+        except Exception:
+            renders = False         # a dangling reference may legitimately refuse to render (C17)
+        if renders:
+            check_default(sh, dbd, doc, rng, tracer, 'api-afterdelete')
     check_detached(sh, doc, rng)
 
 
